@@ -450,12 +450,6 @@ def gen_edge(rng, one_class=False, step_class=False):
     # fixed-step solvers put a ring buffer behind a delayed edge; C10 only ties that the edge IS delayed there: at the first call
     # (fresh buffers) a delay of >= 2 steps delivers the buffer's initial 0, an undelayed edge would deliver the present value
     solver = "euler" if (rng.random() < 0.3 and not step_class) else "scipy"
-    if solver == "euler":
-        # fixed step, vectorize=False: delayed edges leaving two DIFFERENT variables of one operator do not compile at all
-        # (PyRatesException "Buffer variable name collision ... {'source_idx_out0'}", ring-buffer branch, not C10's subject)
-        first = {}
-        for e in edges:
-            e[1] = first.setdefault(e[0], e[1])
     case = dict(kind="edge", delay_type=types, matrix=matrix, nodes=nodes, edges=edges, vars=[f"{n}.{v}" for n in nodes for v in "xz"],
                 parnames=[f"w{j}" for j in range(len(edges))], solver=solver, dt="1/8", use_t=False)
     case["eqs"] = edge_eqs(case)
